@@ -124,7 +124,15 @@ def rn5(prog, rr):
         rr.require(f is not None, "rangelist.%s missing" % mn)
         t = norm(f.node)
         rr.inst("rangelist.%s" % mn)
-        inplace = ("self.range_l.rl.clear()" in t) if mn == "clear" else ("self.range_l.add_range(" in t or "self.append(" in t)
+        if mn == "clear":
+            inplace = "self.range_l.rl.clear()" in t
+            if not inplace and "self.range_l.clear()" in t:
+                # delegated to the model: its clear() must empty the list object in place
+                mc = prog.cls("ExprRangelistModel").methods.get("clear")
+                inplace = mc is not None and "self.rl.clear()" in norm(mc.node) and not any(
+                    isinstance(a, ast.Assign) and any(norm(tg) == "self.rl" for tg in a.targets) for a in walk_local(mc.node))
+        else:
+            inplace = "self.range_l.add_range(" in t or "self.append(" in t
         if not inplace:
             rr.finding(f, f.node, "rangelist." + mn, "RN5: %s does not edit the shared ExprRangelistModel in place" % mn, text="in place")
     # every ExprInModel built from a rangelist receives the range_l object itself
